@@ -21,7 +21,7 @@ LISTED_SETS = [('yexa', 'yexb'), ('input', 'include'), ('section', 'yexa'), ('fo
                ('yexa',), ('cite', 'input')]
 
 
-def gen_extract(rnd, pack='*'):
+def gen_extract(rnd, pack='*', with_defs=False):
     """-> (src, extr string, expected [(word, offset)], n_known_finding_contexts, contexts)"""
     listed = rnd.choice(LISTED_SETS)
     wid = [0]
@@ -101,6 +101,18 @@ def gen_extract(rnd, pack='*'):
                           'defarg', 'defbody', 'newcmd'])
         if ctx in ('declarg', 'newcmd') and ctx != kfmode:
             ctx = 'top'
+        if with_defs and ctx == 'text' and rnd.random() < .5:
+            # a macro set with \def in the definitions text, used inside the argument of a listed macro
+            ctxs.add('defsdef')
+            emit('\\' + rnd.choice(listed) + '{')
+            word(True)
+            emit(' ')
+            exp.append(('ydefdz', None))
+            emit('\\ydd{} ')
+            word(True)
+            emit('}')
+            emit(rnd.choice([' ', '\n', '\n\n']))
+            continue
         ctxs.add(ctx)
         if ctx in ('defarg', 'newcmd'):
             # a parameterless macro defined by the TeX primitive \def (evaluated also in extraction mode) or by
@@ -308,7 +320,7 @@ class C18(core.Check):
         return self.judge_include(case)
 
     def judge_extract(self, case):
-        src, extr, exp, nkf, ctxs, ukf = gen_extract(random.Random(case['s']), case['pack'])
+        src, extr, exp, nkf, ctxs, ukf = gen_extract(random.Random(case['s']), case['pack'], with_defs=case['s'] % 3 == 0)
         cnt = {'extract_docs': 1, 'listed_calls': len(exp)}
         for c in ctxs:
             cnt['ctx_' + c] = 1
@@ -316,7 +328,8 @@ class C18(core.Check):
         if case['s'] % 3 == 0:
             # a definitions text that itself calls listed macros: its output (also extracted parts) is discarded
             first = extr.split(',')[0]
-            extra['defs'] = '\\newcommand{\\ydefd}{x}\n\\%s{hdefaQ hdefbQ}\n\\zzfoo{\\%s{hdefcQ}}\n' % (first, first)
+            extra['defs'] = ('\\newcommand{\\ydefd}{x}\n\\%s{hdefaQ hdefbQ}\n\\zzfoo{\\%s{hdefcQ}}\n\\def\\ydd{ydefdz}\n'
+                             % (first, first))
             cnt['extract_with_defs'] = 1
         (t, p), err = tex.run(src, extr=extr, pack=case['pack'], lang=case['lang'], nosp=case['nosp'], **extra)
         obs = [(c, q) for c, q in zip(t, p) if not c.isspace()]
